@@ -185,6 +185,8 @@ def _transformed(pa, rng, c, d, kind, labels, de, alpha, beta, tk, rec, meta, sh
             perm = list(labels)
             rng.shuffle(perm)
             cm = {x: f"q_{perm[i]}" for i, x in enumerate(sorted(labels))}           # arbitrary bijection
+            if labels and rng.random() < 0.5:
+                cm[rng.choice(sorted(labels))] = ""          # the empty string is a legal category name (not "no category")
             other = transform(pa, c, cat_map=cm).get_best_alignment(d).disorder
         else:
             factor = rng.choice([2, 4, 0.5, 3])
